@@ -60,12 +60,18 @@ func straceUsable() bool {
 }
 
 type crashPoint struct {
-	Sys  string
-	N    int
-	Mode string // kill | EIO | ENOSPC
+	Sys   string
+	N     int
+	Mode  string // kill | EIO | ENOSPC
+	FSize int64  // -1, or a byte limit in force as well (a second fault: whatever is written after the first one stops there)
 }
 
-func (c crashPoint) String() string { return fmt.Sprintf("%s#%d:%s", c.Sys, c.N, c.Mode) }
+func (c crashPoint) String() string {
+	if c.FSize >= 0 {
+		return fmt.Sprintf("%s#%d:%s+limit%d", c.Sys, c.N, c.Mode, c.FSize)
+	}
+	return fmt.Sprintf("%s#%d:%s", c.Sys, c.N, c.Mode)
+}
 
 // traceOp runs the op under strace in home h and returns the ordered syscall names and the
 // position of the call that creates the temporary file (the start of the write phase).
@@ -97,7 +103,7 @@ func runFaulted(h *proc.Home, dir string, args []string, cp crashPoint) proc.Res
 		inj = fmt.Sprintf("inject=%s:error=%s:when=%d", cp.Sys, cp.Mode, cp.N)
 	}
 	sa := append([]string{"-f", "-o", "/dev/null", "-e", "trace=" + cp.Sys, "-e", inj, proc.Wtf()}, args...)
-	return proc.Run(proc.Cmd{Path: stracePath, Args: sa, Env: h.Env(), Dir: dir, Timeout: 60 * time.Second, FSize: -1})
+	return proc.Run(proc.Cmd{Path: stracePath, Args: sa, Env: h.Env(), Dir: dir, Timeout: 60 * time.Second, FSize: cp.FSize})
 }
 
 // crashPoints turns a syscall trace into the list of injection points: every occurrence of
@@ -122,7 +128,7 @@ func crashPoints(t *rapid.T, names []string, create int) []crashPoint {
 			from = count[s] - 7
 		}
 		for k := from; k <= count[s]+1; k++ { // +1: a point that is never reached (control)
-			out = append(out, crashPoint{s, k, "kill"})
+			out = append(out, crashPoint{s, k, "kill", -1})
 			if k <= before[s] && !strings.HasPrefix(s, "mkdir") {
 				continue // the property is about failed WRITES: calls of the read phase are only crashed at, not failed
 			}
@@ -130,7 +136,11 @@ func crashPoints(t *rapid.T, names []string, create int) []crashPoint {
 			if s == "write" || s == "pwrite64" || s == "openat" || s == "mkdirat" || s == "ftruncate" {
 				mode = rapid.SampledFrom([]string{"ENOSPC", "EIO", "EDQUOT"}).Draw(t, "errno")
 			}
-			out = append(out, crashPoint{s, k, mode})
+			out = append(out, crashPoint{s, k, mode, -1})
+			if k > before[s] && k <= count[s] && (strings.HasPrefix(s, "open") || s == "fsync" || strings.HasPrefix(s, "rename")) {
+				// fault sequence: the call fails AND the disk is full for whatever the tool writes next
+				out = append(out, crashPoint{s, k, mode, rapid.SampledFrom([]int64{0, 1, 40}).Draw(t, "then-limit")})
+			}
 		}
 	}
 	return out
